@@ -233,7 +233,7 @@ def curve_diff(A, B):
     if not pts:
         return None if not any(A) else "missing"
     xr = max(p[0] for p in pts) - min(p[0] for p in pts); yr = max(p[1] for p in pts) - min(p[1] for p in pts)
-    sx = max(1.0, xr) / max(1.0, yr)              # bring both axes to the temperature scale
+    sx = max(1.0, max(1.0, xr) / max(1.0, yr))    # bring a wide enthalpy axis to the temperature scale; never stretch a narrow one
     tol = 0.03 + 2e-6 * max(1.0, yr)
     for seg in A:
         for (x, y) in seg:
